@@ -117,6 +117,48 @@ def run_history(job):
         shutil.rmtree(top, ignore_errors=True)
 
 
+def run_outside(job):
+    """A target OUTSIDE the directory that holds .redo, asked for by a script of the project as ../outside/y.gen.  Its rule
+    is the first existing default.gen.do in the directories above the TARGET (outside/, ws/, top/); a rule lying in the
+    project's own directory (which is no ancestor of the target) must never be taken."""
+    root, bindir, have, foreign, idx = job
+    top = os.path.join(root, f"o{idx}")
+    T = os.path.join(top, "top")
+    res = {"have": list(have), "foreign": foreign, "violations": []}
+    try:
+        os.makedirs(T + "/ws/proj/.redo")
+        os.makedirs(T + "/ws/outside")
+        os.makedirs(top + "/home")
+        Tr = os.path.realpath(T)
+        rule = 'printf \'%s|%s|%s|%s\\n\' {id} "$1" "$2" "$PWD" > "$3"\n'
+        where = {"outside": "ws/outside", "ws": "ws", "top": ""}
+        for h in have:
+            with open(os.path.join(T, where[h], "default.gen.do"), "w") as fh:
+                fh.write(rule.format(id=h))
+        if foreign:
+            with open(os.path.join(T, "ws/proj", foreign), "w") as fh:
+                fh.write(rule.format(id="FOREIGN"))
+        with open(T + "/ws/proj/x.do", "w") as fh:
+            fh.write('redo-ifchange ../outside/y.gen || exit 9\ncat ../outside/y.gen\n')
+        env = common.base_env(bindir, top + "/home")
+        env["REDO_LOG"] = "0"
+        rc, out, err = common.run_cmd([os.path.join(bindir, "redo-ifchange"), "x"], T + "/ws/proj", env, timeout=30)
+        want = next(h for h in ("outside", "ws", "top") if h in have)
+        wdir = os.path.join(Tr, where[want]) if where[want] else Tr
+        rel = os.path.relpath(Tr + "/ws/outside/y.gen", wdir)
+        expect = "%s|%s|%s|%s\n" % (want, rel, rel[:-4], wdir)
+        try:
+            got = open(T + "/ws/outside/y.gen").read()
+        except OSError:
+            got = None
+        if rc != 0 or got != expect:
+            res["violations"].append({"kind": "outside-target-built-by-wrong-rule" if got and got != expect else "outside-target-not-built",
+                                      "rc": rc, "got": got, "want": expect, "stderr": err[-300:]})
+        return res
+    finally:
+        shutil.rmtree(top, ignore_errors=True)
+
+
 def extra_checks(tier, verdict, cov):
     """E1-style histories of C13: add(higher-priority candidate), remove(chosen), redo-ifchange -- for every pair
     low > high of in-project candidates of a few targets, with the target's directory existing beforehand or not."""
@@ -157,7 +199,24 @@ def extra_checks(tier, verdict, cov):
         if len(seen) <= 10:
             verdict.report(sig, {"engine": "E1-history", "check": "history", "target": r["target"], "low": r["low"],
                                  "high": r["high"], "premkdir": r["premkdir"], "via_link": r.get("via_link", False), "violation": v})
+    ojobs = []
+    import itertools as _it
+    k = 0
+    for n in (1, 2, 3):
+        for have in _it.combinations(("outside", "ws", "top"), n):
+            for foreign in (None, "default.gen.do", "default.do"):
+                ojobs.append((root, bindir, have, foreign, k))
+                k += 1
+    with concurrent.futures.ProcessPoolExecutor(max_workers=min(16, max(1, common.NCPU))) as ex:
+        for r in ex.map(run_outside, ojobs, chunksize=2):
+            for v in r["violations"]:
+                sig = {"kind": v["kind"], "rules": "+".join(r["have"]), "foreign": r["foreign"]}
+                verdict.report(sig, {"engine": "E1-history", "check": "outside", "have": r["have"], "foreign": r["foreign"], "violation": v})
+                bad.append((r, v))
     if cov is not None:
+        cov["targets_outside_the_project"] = {"cases": len(ojobs), "rule_places": ["outside", "ws", "top"],
+                                              "foreign_rule_in_project_dir": [None, "default.gen.do", "default.do"]}
+        cov["evaluations"] += len(ojobs)
         cov["histories"] = {"targets": targets, "histories": len(jobs), "commands_run": runs, "violating": len(bad)}
         cov["evaluations"] += len(jobs)
         cov["distinct_nontrivial"] += len(jobs)
@@ -530,6 +589,12 @@ def replay(path):
                 print(json.dumps({"placed": r["placed"], "violation": v, "whichdo": r.get("whichdo"),
                                   "redo": r.get("redo")}, indent=1, ensure_ascii=False))
             bad = len(allbad)
+        elif doc.get("check") == "outside":
+            root = str(common.scratch_root() / "c13h")
+            os.makedirs(root, exist_ok=True)
+            r = run_outside((root, str(common.build_subject()), tuple(doc["have"]), doc["foreign"], 0))
+            print(json.dumps(r, indent=1, ensure_ascii=False))
+            bad = len(r["violations"])
         elif doc.get("check") == "history":
             root = str(common.scratch_root() / "c13h")
             os.makedirs(root, exist_ok=True)
